@@ -43,7 +43,10 @@ def check_ext(ctx, e, stratum="extension"):
     from vf.gen.types import wire_ty
     from vf.oracles import wire
 
-    x = build_extension(e)
+    eager = len(json.dumps(e, default=repr)) % 2 == 0
+    if eager:
+        ctx.feat("feature:serialized-while-growing")
+    x = build_extension(e, eager=eager)
     s1 = x.to_json()
     d1 = json.loads(s1)
     ctx.count("monitor:ext-vs-descriptor")
